@@ -305,8 +305,8 @@ theorem subscribeFinish_grant (rt : Routing) (svc : Nat) (t : Int) (x : Str) (th
     ∃ g, subscribeFinish rt svc t (.resp 200 (some x) th) = (set rt x svc, .sub x g) := by
   obtain ⟨g, _, hp⟩ := inScope_parse th t hs
   rcases hp with ⟨hk, rfl⟩ | hk
-  · exact ⟨g, by simp [subscribeFinish, hk]⟩
-  · exact ⟨g, by simp [subscribeFinish, hk]⟩
+  · exact ⟨g, by simp [subscribeFinish, guards_pinned.1, hk]⟩
+  · exact ⟨g, by simp [subscribeFinish, guards_pinned.1, hk]⟩
 
 /-- a response that grants nothing leaves the routing table alone and the call raises -/
 theorem subscribeFinish_nogrant (rt : Routing) (svc : Nat) (t : Int) (r : Reaction)
